@@ -19,7 +19,8 @@ RULE = ('operations over a universe of 16 rules (shared and splitting prefixes, 
         'history of length <= D over the whole alphabet (D=2 quick, 3 thorough) by re-execution; random units: histories of length 6-30. After each '
         'history: probes on ~30 paths x 2 verbs + names + rules + routes + WSGI hook traces, real vs freshly built. Non-trivial = the history '
         'contains a removal or a rejected operation; distinct = distinct history.')
-REQUIRED = ['scripted_histories', 'op_add_method_list', 'histories', 'ops_applied', 'ops_rejected', 'resolve_probes', 'name_probes', 'wsgi_probes', 'hook_firings_compared', 'structure_checks',
+PYOPT = {'quick': 1, 'thorough': 1}     # one unit of every kind is also served by an interpreter started with -O (assert statements compiled out)
+REQUIRED = ['units_run_under_python_-O', 'scripted_histories', 'op_add_method_list', 'histories', 'ops_applied', 'ops_rejected', 'resolve_probes', 'name_probes', 'wsgi_probes', 'hook_firings_compared', 'structure_checks',
             'op_add', 'op_remove', 'op_remove_name', 'op_remove_prefix', 'op_add_hook', 'op_remove_hook', 'op_overwrite', 'rejected_method_clash',
             'rejected_name_clash', 'hook_reference_checked', 'removed_then_probed', 'hook_only_prefix_probed']
 EXHAUSTIVE = {'quick': True, 'thorough': True, 'quick_note': 'all histories of length <= 2 over the 76-operation alphabet',
@@ -48,11 +49,16 @@ RULES = {
     # two rules that go on differently after one filtered wildcard, none ending on the wildcard itself
     '/i/<n:int>/e': ('i/' + W + '/e', '/i/5/e', {'n': 5}),
     '/i/<n:int>.j': ('i/' + W + '.j', '/i/5.j', {'n': 5}),
+    # one regular expression, three rules: the alternative that matched selects the rule (its number is part of the pattern)
+    '/s/<v.rex((a+)|(b+))[1]>': ('s/' + W + '1', '/s/aa', {'v': 'aa'}),
+    '/s/<v.rex((a+)|(b+))[2]>': ('s/' + W + '2', '/s/bb', {'v': 'bb'}),
+    '/s/<v.rex((a+)|(b+))>': ('s/' + W, '/s/aa', {'v': 'aa'}),
 }
+SEL1, SEL2, SEL0 = '/s/<v.rex((a+)|(b+))[1]>', '/s/<v.rex((a+)|(b+))[2]>', '/s/<v.rex((a+)|(b+))>'
 FAMILIES = [{'/a/<x>', '/a/<x>/c', '/a/<n:int>'}, {'/b/<p:path>', '/b/<p:path>/end'}]
 HOOKS = {'/': '', '/a': 'a', '/a/<x>': 'a/' + W, '/h': 'h', '/ab': 'ab', '/zz': 'zz', '/a/b': 'a/b'}
-EXTRA_PATHS = ['/i/5', '/i/abc', '/i/abc/e', '/i/5.json', '/i/7/e', '/', '/a/', '/abcd', '/a/5/c', '/a/b/c', '/zz', '/zz/top', '/h', '/h/z', '/b/end', '/b', '/x/d', '/a/b/', '/A', '/a//c', '/ab/']
-PREFIXES = ['/a*', '/a/*', '/h/*', '/q*', '/a/b*']
+EXTRA_PATHS = ['/s/ab', '/s/c', '/s/b', '/s', '/i/5', '/i/abc', '/i/abc/e', '/i/5.json', '/i/7/e', '/', '/a/', '/abcd', '/a/5/c', '/a/b/c', '/zz', '/zz/top', '/h', '/h/z', '/b/end', '/b', '/x/d', '/a/b/', '/A', '/a//c', '/ab/']
+PREFIXES = ['/a*', '/a/*', '/h/*', '/q*', '/a/b*', '/s/*']
 
 
 def alphabet():
@@ -60,7 +66,7 @@ def alphabet():
     for r in RULES:
         ops.append(('add', r, 'GET', None, False))
         ops.append(('add', r, 'POST', None, False))
-    for r in ('/a', '/a/<x>', '/h/x', '/<y>'):
+    for r in ('/a', '/a/<x>', '/h/x', '/<y>', SEL1):
         ops.append(('add', r, 'GET', 'n1', False))
     for r in ('/ab', '/a/<x>'):
         ops.append(('add', r, 'PUT', 'n2', False))
@@ -529,6 +535,13 @@ def scripted_histories():
             out.append([('add', x, 'GET', None, False), ('add', y, 'GET', None, False), ('remove', x)])
             out.append([('add', x, 'GET', None, False), ('add', y, 'GET', None, False), ('remove', x), ('add', x, 'POST', None, False)])
             out.append([('add', x, 'GET', None, False), ('add', y, 'GET', None, False), ('remove', y), ('remove', x)])
+    for named, other in ((SEL1, SEL0), (SEL1, SEL2), (SEL0, SEL1), (SEL2, SEL0)):
+        base = [('add', named, 'GET', 'n1', False), ('add', other, 'GET', None, False)]
+        out.append(base + [('remove_name', 'n1')])
+        out.append(base + [('remove', named)])
+        out.append(base + [('remove_name', 'n1'), ('add', named, 'POST', 'n2', False), ('remove_name', 'n2')])
+        out.append(base[::-1] + [('remove', other)])
+        out.append(base + [('remove_prefix', '/s/*')])
     for r in ('/a/<x>', '/h/x'):
         out.append([('add', r, 'GET', None, False), ('add', r, ('PATCH', 'GET'), 'n1', False), ('remove_name', 'n1'), ('remove', r)])
         out.append([('add', r, 'GET', 'n1', False), ('add', '/ab', 'GET', 'n1', False), ('remove_name', 'n1'), ('add', '/ab', 'GET', 'n1', False)])
